@@ -51,6 +51,11 @@ def run(facts, rep, tier):
             e = expr(du, t["discr"])
             if e[0] == "discr" and e[1][0] == "arg" and e[1][2][-1:] == ("filter",):
                 s1 = (bi, t)
+                s1_none_val = 0
+            elif s1 is None and e[0] == "call" and e[1].split("::")[-1] in ("is_some", "is_none") and len(e[2]) == 1 and \
+                    e[2][0][0] == "arg" and e[2][0][2][-1:] == ("filter",):
+                s1 = (bi, t)                      # `args.filter.is_some()` : the same decision, as a bool
+                s1_none_val = 0 if e[1].endswith("is_some") else 1
     if s1 is None:
         raise Broken("C16 anchor: no decision on Args.filter in the per-line region")
     s1bb, s1t = s1
@@ -78,6 +83,22 @@ def run(facts, rep, tier):
         method = pe_in[1].split("::")[-1]
     else:
         pe_in = pe
+    some_and = None
+    if method == "is_some_and" and outer is None:
+        clr = _closure_of(proc, du, pe_in)
+        if clr is not None:
+            cb2 = facts.bodies[clr["rv"]["closure"]]
+            cdu2 = DefUse(cb2)
+            ret2 = expr_place(cdu2, {"local": 0, "proj": []})
+            caps2 = [c["name"].lstrip("*") for c in cb2.j.get("captures") or []]
+            cap_e2 = [expr(du, o) for o in clr["rv"]["ops"]]
+            if ret2[0] == "call" and ret2[1].split("::")[-1] == "contains" and len(ret2[2]) == 2:
+                nd = ret2[2][1]
+                if nd[0] == "capture" and nd[1].lstrip("*") in caps2:
+                    some_and = cap_e2[caps2.index(nd[1].lstrip("*"))]
+    if some_and is not None:
+        method = "contains"
+        pe_in = ("call", "contains", (pe_in[2][0], some_and))
     if method not in ("all", "any", "contains", "find", "position", "binary_search"):
         # an unrecognised form: at least it must be a function of the frame's decoded DF
         from ..lineexpr import walk
@@ -219,9 +240,9 @@ def run(facts, rep, tier):
     # without -f nothing is filtered: from the None edge of the Option test every effect site is still reachable
     none_t = None
     for v, b in s1t["targets"]:
-        if int(v) == 0:
+        if int(v) == s1_none_val:
             none_t = b
-    if none_t is None and [int(v) for v, _ in s1t["targets"]] == [1]:
+    if none_t is None and [int(v) for v, _ in s1t["targets"]] == [1 - s1_none_val]:
         none_t = s1t["otherwise"]
     if none_t is not None:
         r = reg.reach(start=none_t)
